@@ -23,9 +23,12 @@ def deferred_pending(r: Ref['obj']) -> bool:
 
 @spec
 def alarm_ok(self: Ref['mqtt.client.pubsubs.MQTTProtocol'], r: Ref['obj'], f: int) -> bool:
-    """r.alarm is None, or the single ACTIVE retry timer of r: it will call f(r) on self"""
+    """r.alarm is None, or the single retry timer of r, calling f(r) on self: ACTIVE, or just CALLED by the reactor
+    when r is the request whose expiry is being handled right now (ghost self.g_firing)"""
     return (is_none(r.alarm) or
-            (isa(r.alarm, 'DelayedCall') and is_int(r.alarm.t_status) and r.alarm.t_status == 0 and is_int(r.alarm.t_fn) and r.alarm.t_fn == f
+            (isa(r.alarm, 'DelayedCall') and is_int(r.alarm.t_status)
+             and (r.alarm.t_status == 0 or (r.alarm.t_status == 2 and self.g_firing == r))
+             and is_int(r.alarm.t_fn) and r.alarm.t_fn == f
              and r.alarm.t_owner == self and r.alarm.t_arg == r))
 
 
@@ -34,7 +37,7 @@ def pub_ok(self: Ref['mqtt.client.pubsubs.MQTTProtocol'], r: Ref['mqtt.pdu.PUBLI
     """a QoS 1/2 PUBLISH request awaiting its first acknowledgement"""
     return (isa(r, 'mqtt.pdu.PUBLISH') and is_int(r.msgId) and 1 <= r.msgId and r.msgId <= 65535
             and is_int(r.qos) and 1 <= r.qos and r.qos <= 2 and is_bytes(r.encoded) and len(as_bytes(r.encoded)) >= 1
-            and is_bool(r.retain) and is_str(r.topic)
+            and is_bool(r.retain) and is_str(r.topic) and is_bool(r.dup)
             and deferred_pending(r) and is_int(r.retries)
             and isa(r.interval, 'mqtt.client.interval.IntervalLinear') and wf_linear(r.interval)
             and alarm_ok(self, r, fn('mqtt.client.pubsubs.MQTTProtocol._publishError')))
@@ -78,7 +81,7 @@ def rx_ok(r: Ref['mqtt.pdu.PUBLISH']) -> bool:
 def queued_ok(r: Ref['mqtt.pdu.PUBLISH']) -> bool:
     """a PUBLISH accepted by publish() and not yet transmitted"""
     return (isa(r, 'mqtt.pdu.PUBLISH') and is_bytes(r.encoded) and len(as_bytes(r.encoded)) >= 1
-            and is_int(r.qos) and 0 <= r.qos and r.qos <= 2 and is_bool(r.retain) and is_str(r.topic)
+            and is_int(r.qos) and 0 <= r.qos and r.qos <= 2 and is_bool(r.retain) and is_str(r.topic) and is_bool(r.dup)
             and isa(r.deferred, 'Deferred') and is_unset(r.alarm)
             and ((r.qos == 0 and is_none(r.msgId) and is_none(r.interval))
                  or (r.qos > 0 and is_int(r.msgId) and 1 <= r.msgId and r.msgId <= 65535 and deferred_pending(r)
